@@ -272,12 +272,10 @@ class LetExpression(TypedExpression):
             [layer for layer in list(value_state.stack) if layer.get("scope")]
         )
         if not self.local_variables:
+            # An empty let adds no layer: the body keeps its own layers as they
+            # are (re-stacking them here would list the body's own scope twice).
             return self.value.model_copy(
-                update={
-                    "before": body_before,
-                    "after": body_after,
-                    "scope_state": ScopeState(stack=scope_stack),
-                }
+                update={"before": body_before, "after": body_after}
             )
         return self.value.model_copy(
             update={
